@@ -879,6 +879,15 @@ func (e *Eval) bindCells(env *Env, fr *Frame) {
 		}
 	}()
 	for v, val := range fr.vals {
+		// local arrays: the name denotes the whole array as a slice
+		if a, ok := v.(*ssa.Alloc); ok && a.Comment != "" && val.A != nil && val.A.Kind == "array" {
+			if at, ok := val.A.Typ.Underlying().(*types.Array); ok {
+				if _, dup := env.vars[a.Comment]; !dup {
+					n := bvLit(64, uint64(at.Len()))
+					env.vars[a.Comment] = TV{T: fmt.Sprintf("(mk-slice %s #x0000000000000000 %s %s)", val.A.Base, n, n), Ty: types.NewSlice(at.Elem())}
+				}
+			}
+		}
 		// local struct variables: the name denotes the object (auto-dereferenced)
 		if a, ok := v.(*ssa.Alloc); ok && a.Comment != "" && val.A == nil && val.T != "" {
 			if pt, ok := a.Type().(*types.Pointer); ok && isStruct(pt.Elem()) {
